@@ -111,6 +111,8 @@ impl UdpMetricSink {
 
 impl MetricSink for UdpMetricSink {
     fn emit(&self, metric: &str) -> io::Result<usize> {
+        #[cfg(cadence_verif)]
+        crate::verif::point("sock.send", self as *const Self as usize, metric.len() as u64, 0);
         self.stats
             .update(self.socket.send_to(metric.as_bytes(), self.addr), metric.len())
     }
@@ -136,6 +138,8 @@ impl UdpWriteAdapter {
 
 impl Write for UdpWriteAdapter {
     fn write(&mut self, buf: &[u8]) -> io::Result<usize> {
+        #[cfg(cadence_verif)]
+        crate::verif::point("sock.write", self as *const Self as usize, buf.len() as u64, 0);
         self.stats.update(self.socket.send_to(buf, self.addr), buf.len())
     }
 
